@@ -22,6 +22,9 @@ ALL_GATES = GATES1 + GATESN
 # ---------------------------------------------------------------------------
 
 
+P_LARGE = 0.012
+
+
 def new_cdict(name="top"):
     return {"name": name, "nodes": [], "edges": [], "bbs": {}}
 
@@ -145,6 +148,7 @@ def rand_circuit(
     ensure_loaded=True,
     in_prefix="i",
     gate_prefix="g",
+    p_large=None,
 ):
     """Random acyclic, lint-clean, blackbox-free circuit.
 
@@ -158,6 +162,16 @@ def rand_circuit(
         # degenerate sizes: no gate at all, or a single gate over one or two inputs
         n_gates = rng.choice([0, 0, 1])
         n_inputs = rng.randint(1, 2)
+    large = None
+    if force is None and rng.random() < (P_LARGE if p_large is None else p_large):
+        # sizes beyond what the ordinary classes reach: deep chains, one very wide gate, many nodes, long names
+        large = rng.choice(["deep", "fat", "many", "longnames"])
+        if large == "deep":
+            shape, n_gates = "chain", rng.randint(22, 40)
+        elif large == "fat":
+            n_gates = rng.randint(20, 45)
+        elif large == "many":
+            n_gates = rng.randint(66, 90)
     cd = new_cdict(name)
     shape = shape or rng.choice(["random", "random", "random", "chain", "tree", "diamond", "wide", "multi"])
     avail = []
@@ -179,6 +193,8 @@ def rand_circuit(
         n = f"{gate_prefix}{gi}"
         if gi == forced_at:
             t, ar = force
+        elif large == "fat" and gi == n_gates - 1:
+            t, ar = rng.choice(GATESN), rng.randint(17, min(40, len(avail)))
         else:
             t = rng.choice(types)
             if t in GATES1:
@@ -193,7 +209,9 @@ def rand_circuit(
             ar = 1
         ar = min(ar, len(avail))
         # choose fan-in according to shape
-        if shape == "chain" and gates:
+        if large == "fat" and gi == n_gates - 1:
+            pool = avail
+        elif shape == "chain" and gates:
             pool = [gates[-1]] + rng.sample(avail, min(len(avail), 3))
         elif shape == "tree":
             # prefer nodes without load yet
@@ -260,6 +278,9 @@ def rand_circuit(
             else:
                 outs.add(n)
     cd["nodes"] = [[n, t, n in outs] for n, t, _ in cd["nodes"]]
+    if large == "longnames":
+        pad = "w" + "".join(rng.choice("abcdefghij0123456789") for _ in range(rng.randint(40, 70)))
+        cd = cd_rename(cd, {n: n + pad + str(j) for j, (n, t, _) in enumerate(cd["nodes"]) if rng.random() < 0.7})
     return cd
 
 
